@@ -91,7 +91,7 @@ func guardParams(c *Ctx) {
 		ok = c.resolvedParamValue(fi, as.Rhs[0], as, 0)
 		c.S.Decide(ok, "C15", "GUARD-PLACEHOLDER", fi.QName()+"/store", c.P.Pos(as.Pos()),
 			"stores either a parameter whose $ref is empty or the parameter obtained from the successful resolution of its $ref",
-			"a parameter is stored into the result although it is neither ref-free nor the resolved target of its $ref: callers can receive an unresolved placeholder")
+			"a parameter is stored into the result although nothing establishes that its $ref is empty (the parameter itself, or the object its $ref was resolved to — a shared parameter may again be a $ref): callers can receive an unresolved placeholder")
 		return true
 	})
 	if stores < 1 {
@@ -846,7 +846,11 @@ func (c *Ctx) resolvedParamValue(fi *core.FuncInfo, v ast.Expr, at ast.Node, dep
 	}
 	switch x := core.Unparen(d.Expr).(type) {
 	case *ast.TypeAssertExpr:
-		return assertOK && noErr && okOf == d.Expr && core.IsSpecType(info.TypeOf(x.Type), "Parameter")
+		// the object the $ref designates is a parameter — which may itself be a $ref (a shared parameter that refers to
+		// another one): it is a resolved value only when its own $ref has been tested empty, and that case returned
+		// above. (Defect F28: such a parameter was handed out as a nameless placeholder.)
+		_ = assertOK && noErr && okOf == d.Expr && core.IsSpecType(info.TypeOf(x.Type), "Parameter")
+		return false
 	case *ast.CallExpr:
 		if !noErr || errOf != d.Expr {
 			return false
